@@ -27,6 +27,8 @@ def classify(o, r):
         return "C16-F13: time-range without start and end: answer depends on the storage shortcut"
     if X.known_f14(o, r):
         return SIG_F14
+    if rec and not rec["bound"] and X.ref_start(o) in rec["ex"]:
+        return "C16: unbounded rule whose first instance is removed by EXDATE: enclosing range / answer taken from DTSTART"
     if o["t"] == "VEVENT" and o["end"] and o["end"][0] == "dur" and o["end"][1] > 0 and o["end"][1] % X.DAY == 0:
         return "C16-F3: VEVENT with a DURATION of whole days treated as zero-length"
     if o["t"] == "VTODO" and o["dtstart"] is None and o["due"] is None and o["completed"] is not None and o["created"] is not None:
@@ -35,8 +37,6 @@ def classify(o, r):
         return "C16-F18: VTODO with DTSTART, DUE, COMPLETED, CREATED: DUE offset overwritten by COMPLETED-CREATED"
     if rec and rec["bound"] and rec.get("order", ["FREQ"])[0] == "BOUND":
         return "C16-F16: RRULE whose first part is COUNT/UNTIL treated as unbounded"
-    if rec and not rec["bound"] and X.ref_start(o) in rec["ex"]:
-        return "C16: unbounded rule whose first instance is removed by EXDATE: enclosing range / answer taken from DTSTART"
     if rec and o.get("kind") == "DATE" and (o["t"] == "VJOURNAL" or (o["t"] == "VEVENT" and not o["end"])):
         return "C16-F12: recurring all-day object without DTEND/DURATION: instances treated as one second"
     if (o["t"] == "VJOURNAL" and o["start"] is None) or (rec and not X.occurrences(X.ref_start(o), rec, X.ref_start(o) + 400 * X.DAY, 80)):
